@@ -83,6 +83,8 @@ func (r *renderer) sp() {
 		}
 	case 3:
 		r.sb.WriteString(" /* c */ ")
+	case 4:
+		// t() separates tokens
 	default:
 		r.sb.WriteString(" ")
 	}
@@ -102,10 +104,20 @@ func (r *renderer) osp() {
 	}
 }
 
+// w writes raw text (string content, characters that must stay adjacent)
 func (r *renderer) w(s string) { r.sb.WriteString(s) }
 
-func (r *renderer) open(s string)  { r.w(s); r.nl++ }
-func (r *renderer) close(s string) { r.nl--; r.w(s) }
+// t writes one token; in mode 4 ("a space between every pair of adjacent tokens")
+// it is preceded by a space
+func (r *renderer) t(s string) {
+	if r.l.Mode == 4 && r.sb.Len() > 0 {
+		r.sb.WriteString(" ")
+	}
+	r.sb.WriteString(s)
+}
+
+func (r *renderer) open(s string)  { r.t(s); r.nl++ }
+func (r *renderer) close(s string) { r.nl--; r.t(s) }
 
 func numText(n2 int) string {
 	if n2%2 == 0 {
@@ -132,7 +144,10 @@ func (r *renderer) wrapped(n *Node, need bool) {
 // operand of a postfix operator
 func (r *renderer) postfixOperand(n *Node) {
 	// a traversal written after a splat belongs to the splat, so a splat operand needs parentheses
-	need := prec(n) < 8 || n.K == "num" || n.K == "splat"
+	need := prec(n) < 8 || n.K == "splat"
+	if n.K == "num" && r.l.Mode != 4 {
+		need = true // "1.a" / "1.0" would lex differently; with a space between all tokens it is unambiguous
+	}
 	r.wrapped(n, need)
 }
 
@@ -161,72 +176,76 @@ func escQuoted(s string) string {
 
 func bit(n, i int) bool { return (n>>uint(i))&1 == 1 }
 
+// seqOpen writes a template sequence opener, which must directly follow the literal text
+func (r *renderer) seqOpen(intro string, strip bool) {
+	r.w(intro)
+	if strip {
+		r.w("~")
+	}
+	r.nl++
+	r.osp()
+}
+
+func (r *renderer) seqClose(strip bool) {
+	r.osp()
+	r.nl--
+	if strip {
+		r.t("~}")
+	} else {
+		r.t("}")
+	}
+}
+
 func (r *renderer) tplParts(parts []*Node) {
 	for _, p := range parts {
 		switch p.K {
 		case "tlit":
 			r.w(escQuoted(p.S))
 		case "interp":
-			r.w("${")
-			r.nl++
-			if bit(p.N, 0) {
-				r.w("~")
-			}
-			r.osp()
+			r.seqOpen("${", bit(p.N, 0))
 			r.expr(p.Sub[0])
-			r.osp()
-			if bit(p.N, 1) {
-				r.w("~")
-			}
-			r.nl--
-			r.w("}")
+			r.seqClose(bit(p.N, 1))
 		case "tif":
-			r.directive(bit(p.N, 0), bit(p.N, 1), func() { r.w("if"); r.sp(); r.expr(p.Sub[0]) })
+			r.seqOpen("%{", bit(p.N, 0))
+			r.t("if")
+			r.sp()
+			r.expr(p.Sub[0])
+			r.seqClose(bit(p.N, 1))
 			r.tplParts(p.Sub[1].Sub)
 			if p.Sub[2].K != "none" {
-				r.directive(bit(p.N, 2), bit(p.N, 3), func() { r.w("else") })
+				r.seqOpen("%{", bit(p.N, 2))
+				r.t("else")
+				r.seqClose(bit(p.N, 3))
 				r.tplParts(p.Sub[2].Sub)
 			}
-			r.directive(bit(p.N, 4), bit(p.N, 5), func() { r.w("endif") })
+			r.seqOpen("%{", bit(p.N, 4))
+			r.t("endif")
+			r.seqClose(bit(p.N, 5))
 		case "tfor":
 			st := p.N / 4
-			r.directive(bit(st, 0), bit(st, 1), func() {
-				r.w("for")
+			r.seqOpen("%{", bit(st, 0))
+			r.t("for")
+			r.sp()
+			if p.N%4 != 0 {
+				r.t(KeyVarNames[p.N%4])
+				r.osp()
+				r.t(",")
 				r.sp()
-				if p.N%4 != 0 {
-					r.w(KeyVarNames[p.N%4])
-					r.osp()
-					r.w(",")
-					r.sp()
-				}
-				r.w(p.S2)
-				r.sp()
-				r.w("in")
-				r.sp()
-				r.expr(p.Sub[0])
-			})
+			}
+			r.t(p.S2)
+			r.sp()
+			r.t("in")
+			r.sp()
+			r.expr(p.Sub[0])
+			r.seqClose(bit(st, 1))
 			r.tplParts(p.Sub[1].Sub)
-			r.directive(bit(st, 2), bit(st, 3), func() { r.w("endfor") })
+			r.seqOpen("%{", bit(st, 2))
+			r.t("endfor")
+			r.seqClose(bit(st, 3))
 		default:
 			panic("bad template part " + p.K)
 		}
 	}
-}
-
-func (r *renderer) directive(l, rr bool, body func()) {
-	r.w("%{")
-	r.nl++
-	if l {
-		r.w("~")
-	}
-	r.osp()
-	body()
-	r.osp()
-	if rr {
-		r.w("~")
-	}
-	r.nl--
-	r.w("}")
 }
 
 // eachPath renders the traversal applied to the anonymous symbol of a splat.
@@ -235,8 +254,8 @@ func (r *renderer) eachPath(n *Node) {
 	case "anon":
 	case "attr":
 		r.eachPath(n.Sub[0])
-		r.w(".")
-		r.w(n.S)
+		r.t(".")
+		r.t(n.S)
 	case "index":
 		r.eachPath(n.Sub[0])
 		r.open("[")
@@ -246,8 +265,8 @@ func (r *renderer) eachPath(n *Node) {
 		r.close("]")
 	case "legacy":
 		r.eachPath(n.Sub[0])
-		r.w(".")
-		r.w(fmt.Sprint(n.N / 2))
+		r.t(".")
+		r.t(fmt.Sprint(n.N / 2))
 	default:
 		panic("bad splat each " + n.K)
 	}
@@ -256,47 +275,47 @@ func (r *renderer) eachPath(n *Node) {
 func (r *renderer) expr(n *Node) {
 	switch n.K {
 	case "num":
-		r.w(numText(n.N))
+		r.t(numText(n.N))
 	case "bool":
 		if n.N == 1 {
-			r.w("true")
+			r.t("true")
 		} else {
-			r.w("false")
+			r.t("false")
 		}
 	case "null":
-		r.w("null")
+		r.t("null")
 	case "var":
-		r.w(n.S)
+		r.t(n.S)
 	case "keyid":
-		r.w(n.S)
+		r.t(n.S)
 	case "paren":
 		r.wrapped(n.Sub[0], true)
 	case "un":
-		r.w(n.S)
+		r.t(n.S)
 		x := n.Sub[0]
 		r.wrapped(x, prec(x) < 7)
 	case "bin":
 		p := prec(n)
 		r.wrapped(n.Sub[0], prec(n.Sub[0]) < p)
 		r.sp()
-		r.w(n.S)
+		r.t(n.S)
 		r.sp()
 		r.wrapped(n.Sub[1], prec(n.Sub[1]) <= p)
 	case "cond":
 		r.wrapped(n.Sub[0], prec(n.Sub[0]) == 0)
 		r.sp()
-		r.w("?")
+		r.t("?")
 		r.sp()
 		r.wrapped(n.Sub[1], false)
 		r.sp()
-		r.w(":")
+		r.t(":")
 		r.sp()
 		r.wrapped(n.Sub[2], false)
 	case "tuple":
 		r.open("[")
 		for i, s := range n.Sub {
 			if i > 0 {
-				r.w(",")
+				r.t(",")
 				r.sp()
 			} else {
 				r.osp()
@@ -308,23 +327,23 @@ func (r *renderer) expr(n *Node) {
 	case "object":
 		// newlines separate items inside an object constructor, so this
 		// renderer only uses commas and never a bare newline here
-		r.w("{")
+		r.t("{")
 		save := r.nl
 		r.nl = 0
 		for i := 0; i+1 < len(n.Sub); i += 2 {
 			if i > 0 {
-				r.w(",")
+				r.t(",")
 			}
 			r.sp()
 			r.expr(n.Sub[i])
 			r.sp()
-			r.w("=")
+			r.t("=")
 			r.sp()
 			r.expr(n.Sub[i+1])
 		}
 		r.sp()
 		r.nl = save
-		r.w("}")
+		r.t("}")
 	case "index":
 		r.postfixOperand(n.Sub[0])
 		r.open("[")
@@ -334,23 +353,26 @@ func (r *renderer) expr(n *Node) {
 		r.close("]")
 	case "attr":
 		r.postfixOperand(n.Sub[0])
-		r.w(".")
-		r.w(n.S)
+		r.t(".")
+		r.t(n.S)
 	case "legacy":
 		// the legacy index syntax cannot be chained (x.0.0 lexes 0.0 as one number)
-		if n.Sub[0].K == "legacy" {
+		if n.Sub[0].K == "legacy" && r.l.Mode != 4 {
 			r.wrapped(n.Sub[0], true)
 		} else {
 			r.postfixOperand(n.Sub[0])
 		}
-		r.w(".")
-		r.w(fmt.Sprint(n.N / 2))
+		r.t(".")
+		r.t(fmt.Sprint(n.N / 2))
 	case "splat":
 		r.postfixOperand(n.Sub[0])
 		if n.S == "attr" {
-			r.w(".*")
+			r.t(".")
+			r.t("*")
 		} else {
-			r.w("[*]")
+			r.t("[")
+			r.t("*")
+			r.t("]")
 		}
 		r.eachPath(n.Sub[1])
 	case "for":
@@ -360,46 +382,46 @@ func (r *renderer) expr(n *Node) {
 		}
 		r.open(openB)
 		r.osp()
-		r.w("for")
+		r.t("for")
 		r.sp()
 		if n.N%4 != 0 {
-			r.w(KeyVarNames[n.N%4])
+			r.t(KeyVarNames[n.N%4])
 			r.osp()
-			r.w(",")
+			r.t(",")
 			r.sp()
 		}
-		r.w(n.S2)
+		r.t(n.S2)
 		r.sp()
-		r.w("in")
+		r.t("in")
 		r.sp()
 		r.expr(n.Sub[0])
 		r.sp()
-		r.w(":")
+		r.t(":")
 		r.sp()
 		if n.S != "tuple" {
 			r.expr(n.Sub[1])
 			r.sp()
-			r.w("=>")
+			r.t("=>")
 			r.sp()
 		}
 		r.expr(n.Sub[2])
 		if n.S == "group" {
-			r.w("...")
+			r.t("...")
 		}
 		if n.Sub[3].K != "none" {
 			r.sp()
-			r.w("if")
+			r.t("if")
 			r.sp()
 			r.expr(n.Sub[3])
 		}
 		r.osp()
 		r.close(closeB)
 	case "call":
-		r.w(n.S)
+		r.t(n.S)
 		r.open("(")
 		for i, s := range n.Sub {
 			if i > 0 {
-				r.w(",")
+				r.t(",")
 				r.sp()
 			} else {
 				r.osp()
@@ -407,14 +429,14 @@ func (r *renderer) expr(n *Node) {
 			r.expr(s)
 		}
 		if n.N == 1 {
-			r.w("...")
+			r.t("...")
 		}
 		r.osp()
 		r.close(")")
 	case "tpl":
 		switch n.S {
 		case "q":
-			r.w(`"`)
+			r.t(`"`)
 			save := r.nl
 			r.nl = 0 // interpolation sequences re-enable newlines themselves
 			r.tplParts(n.Sub)
